@@ -93,32 +93,45 @@ def uncovCls (G : MG) (q : Query) (prev : Option Nat) (this next : Nat) : Cls :=
 
 def optList (o : Option Nat) : List Nat := o.toList
 
+/-- the argument guards: `RuntimeError` if both first_node and second_node are given or an argument
+    is not a node of the graph -/
+def uncovGuard (G : MG) (q : Query) : Bool :=
+  (q.first.isSome && q.second.isSome) ||
+  !(decide (q.u ∈ G.nodes) && decide (q.c ∈ G.nodes) && (optList q.first).all (· ∈ G.nodes)
+    && (optList q.second).all (· ∈ G.nodes))
+
+/-- (fix) with second_node the edge u *-* second_node is the first edge of the path: it has to pass
+    the mark test and second_node must not be the forbidden node -/
+def secondBad (G : MG) (q : Query) : Bool :=
+  match q.second with
+  | some s => !pdCode G q.fc q.u s || q.forbid == some s
+  | none => false
+
+/-- state before the `while` loop: `explored_nodes = {u, first_node?, second_node?}`,
+    `descendant_nodes = {u: first_node}` / `{second_node: u}`, `path = deque([start_node])` -/
+def uncovInit (q : Query) : St :=
+  { explored := optList q.second ++ optList q.first ++ [q.u],
+    desc := (match q.first with | some f => [(q.u, f)] | none => []) ++
+            (match q.second with | some s => [(s, q.u)] | none => []),
+    queue := [q.second.getD q.u] }
+
+/-- after the loop: rebuild the path from `c` back to `first_node` (or `u`) -/
+def uncovFinish (q : Query) (s : St) : Except String (List Nat × Bool) :=
+  if s.limit then .ok ([], s.found)
+  else if s.found then
+    match recon s.desc (q.first.getD q.u) (s.explored.length + 1) [q.c] with
+    | some p => .ok (p, true)
+    | none => .error "KeyError"
+  else .ok ([], false)
+
 /-- `uncovered_pd_path(graph, u, c, None, first_node, second_node, force_circle, forbid_node)`;
     returns `(path, found)` -/
 def uncovPdPath (G : MG) (nb : Nat → List Nat) (q : Query) (maxLen : Nat := 1000) :
     Except String (List Nat × Bool) :=
-  if q.first.isSome && q.second.isSome then .error "RuntimeError"
-  else if !(decide (q.u ∈ G.nodes) && decide (q.c ∈ G.nodes) && (optList q.first).all (· ∈ G.nodes)
-            && (optList q.second).all (· ∈ G.nodes)) then .error "RuntimeError"
-  else
-    let start := q.second.getD q.u
-    let stop := q.first.getD q.u
-    let desc0 := (match q.first with | some f => [(q.u, f)] | none => []) ++
-                 (match q.second with | some s => [(s, q.u)] | none => [])
-    let explored0 := optList q.second ++ optList q.first ++ [q.u]
-    -- the edge u *-* second_node is the first edge of the path (fix)
-    if (match q.second with
-        | some s => !pdCode G q.fc q.u s || q.forbid == some s
-        | none => false) then .ok ([], false)
-    else if q.second == some q.c then .ok ([q.u, q.c], true)
-    else
-      let s := loop nb (uncovCls G q) true maxLen { explored := explored0, desc := desc0, queue := [start] }
-      if s.limit then .ok ([], s.found)
-      else if s.found then
-        match recon s.desc stop (s.explored.length + 1) [q.c] with
-        | some p => .ok (p, true)
-        | none => .error "KeyError"
-      else .ok ([], false)
+  if uncovGuard G q then .error "RuntimeError"
+  else if secondBad G q then .ok ([], false)
+  else if q.second == some q.c then .ok ([q.u, q.c], true)
+  else uncovFinish q (loop nb (uncovCls G q) true maxLen (uncovInit q))
 
 /-! ## PAG.possible_parents / PAG.parents / discriminating_path -/
 
@@ -141,29 +154,34 @@ def discCls (G : MG) (c : Nat) (_prev : Option Nat) (this next : Nat) : Cls :=
   else if isParent G c next && hB G this next then .push
   else .skip
 
+/-- the entry tests of `discriminating_path` -/
+def discEntry (G : MG) (u a c : Nat) : Bool :=
+  -- u must be adjacent to c (fix)
+  adj G u c
+  -- a must be a parent of c: only `has_edge(a, c, directed)` is tested (known finding: a o-> c passes)
+  && hD G a c
+  -- arrowhead at a on the edge a *-* u
+  && (hB G a u || hD G u a)
+
+def discInit (u a c : Nat) : St :=
+  { explored := [a, u, c], desc := [(a, u), (u, c)], queue := [a] }
+
+def discFinish (c : Nat) (s : St) : Except String (Bool × List Nat × List Nat) :=
+  if s.limit then .ok (s.found, [], s.explored)
+  else if s.found then
+    match s.last with
+    | none => .error "NameError"
+    | some e =>
+      match recon s.desc c (s.explored.length + 1) [e] with
+      | some p => .ok (true, p.reverse, s.explored)
+      | none => .error "KeyError"
+  else .ok (false, [], s.explored)
+
 /-- `discriminating_path(graph, u, a, c, None)`; returns `(found, path, explored)` -/
 def discPath (G : MG) (nb bnb : Nat → List Nat) (u a c : Nat) (maxLen : Nat := 1000) :
     Except String (Bool × List Nat × List Nat) :=
-  let explored0 := [a, u, c]
-  let desc0 := [(a, u), (u, c)]
-  -- u must be adjacent to c (fix)
-  if !adj G u c then .ok (false, [], explored0)
-  -- a must be a parent of c: only `has_edge(a, c, directed)` is tested (known finding: a o-> c passes)
-  else if !hD G a c then .ok (false, [], explored0)
-  -- arrowhead at a on the edge a *-* u
-  else if !hB G a u && !hD G u a then .ok (false, [], explored0)
-  else
-    let s := loop (discIter G nb bnb) (discCls G c) false maxLen
-               { explored := explored0, desc := desc0, queue := [a] }
-    if s.limit then .ok (s.found, [], s.explored)
-    else if s.found then
-      match s.last with
-      | none => .error "NameError"
-      | some e =>
-        match recon s.desc c (s.explored.length + 1) [e] with
-        | some p => .ok (true, p.reverse, s.explored)
-        | none => .error "KeyError"
-    else .ok (false, [], s.explored)
+  if !discEntry G u a c then .ok (false, [], [a, u, c])
+  else discFinish c (loop (discIter G nb bnb) (discCls G c) false maxLen (discInit u a c))
 
 /-- default iteration orders (ascending node order, bidirected layer in storage order) -/
 def nbDefault (G : MG) (a : Nat) : List Nat := G.nodes.filter (adj G a)
